@@ -1,27 +1,41 @@
+import OrsoVerif.Generated.CursorExpr
 /-!
 # C04 — the DB-API style cursor of `orso.DataFrame`
 
-`orso/dataframe.py`: the constructor stores `iter(rows)`; `fetchone`, `fetchmany`
-and `fetchall` advance that iterator; `append` sets the cursor to `None`, after
-which every fetch raises.  Read-only observers (`rowcount`, `len`, `collect`,
-slicing, rendering …) go through `materialize()`, which for a list-backed frame
-is the identity.  The model is the obvious state machine over a position.
+Two machines over the same operations.
+
+* **Spec machine** (`State`, `step`, `run`): a position into the list of rows; `fetchmany` is
+  `take`/`drop`.  The property theorems are stated and proved about it.
+* **Code machine** (`Frame`, `Impl.step`, `Impl.run`): what `orso/dataframe.py` does, line by line.
+  The cursor is an *iterator* (`Backing.next`): a list iterator over a materialised row store
+  (`dataframe.py:93`, `iter(self._rows or [])`) or, for a lazily backed frame, the backing iterator
+  itself (`_rows` and `_cursor` are the same object).  `fetchone` is one `next`, `fetchmany` the loop
+  `for i in range(fetch_size): try next … except StopIteration: break` (`dataframe.py:281-292`),
+  `fetchall` is `list(cursor)`.  Guards, the fetch size expression, the liveness of the cursor created
+  by `__init__` and the path condition under which `append` reaches `self._cursor = None` are *not*
+  written here: they are `Gen.Cursor.*`, regenerated from the working tree on every run.
+
+`Props/C04.lean` proves that the code machine refines the spec machine (every history, eager and lazy).
+
+The lazy source is `Chunks`: `converters._RowsIterator` (`converters.py:23-66`) over a list of Arrow
+tables, some of which may be empty.  A generator `(r for r in rows)`, and the generators behind
+`select`/`filter`/`take` (one parent row = a chunk of one or zero rows), are instances of it.
 -/
 namespace Cursor
 
-structure State (α : Type) where
-  rows : List α
-  pos : Nat
-  arraysize : Nat
-  valid : Bool
-  deriving Repr
+/-- What an observer touches. `pure`: schema only (`column_names`, `description`, …); `rows`: goes
+through `materialize()` or iterates the store; `nbytes`: `nbytes()`, which also starts the running byte
+total (`dataframe.py:128-133`). -/
+inductive Obs where
+  | pure | rows | nbytes
+  deriving Repr, DecidableEq
 
 inductive Op (α : Type) where
   | fetchone
   | fetchmany (k : Option Nat)
   | fetchall
   | setArraysize (n : Nat)
-  | observe
+  | observe (kind : Obs)
   | append (r : α)
   deriving Repr
 
@@ -30,9 +44,21 @@ inductive Out (α : Type) where
   | many (rs : List α)
   | unit
   | err
-  deriving Repr
+  /-- the operation is outside the property's domain for this frame (row-level observer or append on a
+  lazily backed frame); the code machine does not claim anything about it -/
+  | outside
+  deriving Repr, DecidableEq
 
 variable {α : Type}
+
+/-! ## Spec machine -/
+
+structure State (α : Type) where
+  rows : List α
+  pos : Nat
+  arraysize : Nat
+  valid : Bool
+  deriving Repr
 
 def init (defaultArraysize : Nat) (rows : List α) : State α :=
   { rows := rows, pos := 0, arraysize := defaultArraysize, valid := true }
@@ -55,7 +81,7 @@ def step (s : State α) : Op α → State α × Out α
       ({ s with pos := s.pos + got.length }, .many got)
     else (s, .err)
   | .setArraysize n => ({ s with arraysize := n }, .unit)
-  | .observe => (s, .unit)
+  | .observe _ => (s, .unit)
   | .append r => ({ s with rows := s.rows ++ [r], valid := false }, .unit)
 
 /-- The rows delivered by one output. -/
@@ -73,5 +99,192 @@ def run (s : State α) : List (Op α) → State α × List (Out α)
     (s2, o :: os)
 
 def delivered (outs : List (Out α)) : List α := outs.flatMap fetched
+
+/-! ## The lazy source: `converters._RowsIterator` -/
+
+/-- `tables`: the Arrow tables not loaded yet (each already as its list of rows, `process_table`);
+`current`: the unread rest of the loaded table; `processed`/`maxSize`: `rows_processed`/`max_size`
+(`none` = `float("inf")`). -/
+structure Chunks (α : Type) where
+  tables : List (List α)
+  current : List α
+  processed : Nat
+  maxSize : Option Nat
+  deriving Repr
+
+/-- `if self.rows_processed >= self.max_size: raise StopIteration()` (`converters.py:49`). -/
+def Chunks.limit (c : Chunks α) : Bool :=
+  match c.maxSize with
+  | none => false
+  | some m => decide (Gen.Cursor.limitReached (c.processed : Int) (m : Int))
+
+/-- The `while row is None:` loop of `__next__` (`converters.py:53-63`): load tables until one has a
+row.  Returns the row found with the rest of its table, and the tables still unloaded.  When the source
+says `if` instead of `while` (`skipsEmptyTables = false`) one table is loaded and an empty one ends the
+stream there. -/
+def skipLoad : List (List α) → Option (α × List α) × List (List α)
+  | [] => (none, [])
+  | [] :: ts => if Gen.Cursor.skipsEmptyTables then skipLoad ts else (none, ts)
+  | (r :: rest) :: ts => (some (r, rest), ts)
+
+def Chunks.bump (c : Chunks α) : Nat := (Gen.Cursor.processedAfter (c.processed : Int)).toNat
+
+/-- `_RowsIterator.__next__`; `none` is `StopIteration`. -/
+def Chunks.next (c : Chunks α) : Option α × Chunks α :=
+  if c.limit then (none, c)
+  else
+    match c.current with
+    | r :: rest => (some r, { c with current := rest, processed := c.bump })
+    | [] =>
+      match skipLoad c.tables with
+      | (some (r, rest), ts) => (some r, { c with tables := ts, current := rest, processed := c.bump })
+      | (none, ts) => (none, { c with tables := ts, current := [] })
+
+/-- Abstraction: the rows the source has still to produce. -/
+def Chunks.rows (c : Chunks α) : List α :=
+  let all := c.current ++ c.tables.flatten
+  match c.maxSize with
+  | none => all
+  | some m => all.take (m - c.processed)
+
+def Chunks.ofTables (tables : List (List α)) (maxSize : Option Nat) : Chunks α :=
+  { tables := tables, current := [], processed := 0, maxSize := maxSize }
+
+/-! ## Code machine -/
+
+/-- The row store together with the cursor over it. -/
+inductive Backing (α : Type) where
+  /-- `_rows` is a list; `_cursor` a list iterator at `pos`, or (`none`) a list iterator that has
+  raised `StopIteration` once — CPython drops the list then, it never yields again -/
+  | eager (rows : List α) (pos : Option Nat)
+  /-- `_rows` and `_cursor` are the same iterator object -/
+  | lazy (src : Chunks α)
+  deriving Repr
+
+/-- `next(self._cursor)`; `none` is `StopIteration`. -/
+def Backing.next : Backing α → Option α × Backing α
+  | .eager rows (some p) =>
+    match rows[p]? with
+    | some r => (some r, .eager rows (some (p + 1)))
+    | none => (none, .eager rows none)
+  | .eager rows none => (none, .eager rows none)
+  | .lazy src => let (r, src') := src.next; (r, .lazy src')
+
+/-- The loop of `fetchmany` (`dataframe.py:286-291`): at most `n` times `next`, stop at the first
+`StopIteration`. -/
+def pull : Nat → Backing α → List α × Backing α
+  | 0, b => ([], b)
+  | n + 1, b =>
+    match b.next with
+    | (some r, b') => let (rs, b'') := pull n b'; (r :: rs, b'')
+    | (none, b') => ([], b')
+
+/-- One turn of the body of a `for` loop: go on with the next turn, or `break`. -/
+inductive Loop (σ : Type) where
+  | next (s : σ)
+  | stop (s : σ)
+
+/-- `for _ in range(n): body` where the body may `break`; `σ` is the tuple of variables the body assigns.
+Used by the statement-level translation of `fetchmany` (`Generated/CursorFns.lean`). -/
+def forRange {σ : Type} : Nat → σ → (σ → Loop σ) → σ
+  | 0, s, _ => s
+  | n + 1, s, body =>
+    match body s with
+    | .next s' => forRange n s' body
+    | .stop s' => s'
+
+/-- Abstraction: the rows the cursor has still to deliver. -/
+def Backing.rest : Backing α → List α
+  | .eager rows (some p) => rows.drop p
+  | .eager _ none => []
+  | .lazy src => src.rows
+
+/-- `list(self._cursor)` is `next` until `StopIteration`; that is `pull` with enough fuel.  The fuel is
+one more than the number of rows that can still come (`pull_fuel` in `Lemmas/Cursor.lean`: more fuel
+changes nothing). -/
+def Backing.fuel : Backing α → Nat
+  | .eager rows _ => rows.length + 1
+  | .lazy src => src.current.length + src.tables.flatten.length + 1
+
+structure Frame (α : Type) where
+  backing : Backing α
+  arraysize : Nat
+  /-- `self._cursor is not None` -/
+  live : Bool
+  /-- `self._nbytes is not None` -/
+  nbytesTracked : Bool
+  /-- `isinstance(self._schema, RelationSchema)` -/
+  schemaRel : Bool
+  deriving Repr
+
+/-- How many times the loop of `fetchmany` runs: `range(loopBound (fetch_size))`, a negative bound is an
+empty range. -/
+def fetchCount (arraysize : Nat) (k : Option Nat) : Nat :=
+  (Gen.Cursor.loopBound (Gen.Cursor.fetchSize (arraysize : Int) (k.map Int.ofNat))).toNat
+
+namespace Impl
+
+/-- `DataFrame(rows=[...], schema=…)` / `DataFrame(dictionaries)` (`dicts = true`: the running byte
+total is not kept until `nbytes()` is called, `dataframe.py:63,91`). -/
+def initEager (d : Nat) (rows : List α) (dicts schemaRel : Bool) : Frame α :=
+  { backing := .eager rows (some 0), arraysize := d,
+    live := Gen.Cursor.initCursorLive (!rows.isEmpty),
+    nbytesTracked := !dicts, schemaRel := schemaRel }
+
+/-- `DataFrame(rows=<iterator>, schema=…)`: a generator is truthy whatever it holds. -/
+def initLazy (d : Nat) (tables : List (List α)) (maxSize : Option Nat) (schemaRel : Bool) : Frame α :=
+  { backing := .lazy (Chunks.ofTables tables maxSize), arraysize := d,
+    live := Gen.Cursor.initCursorLive true, nbytesTracked := true, schemaRel := schemaRel }
+
+def step (f : Frame α) : Op α → Frame α × Out α
+  | .fetchone =>
+    if Gen.Cursor.fetchoneRefuses (!f.live) then (f, .err)
+    else let (r, b) := f.backing.next; ({ f with backing := b }, .one r)
+  | .fetchmany k =>
+    if Gen.Cursor.fetchmanyRefuses (!f.live) then (f, .err)
+    else let (rs, b) := pull (fetchCount f.arraysize k) f.backing; ({ f with backing := b }, .many rs)
+  | .fetchall =>
+    if Gen.Cursor.fetchallRefuses (!f.live) then (f, .err)
+    else let (rs, b) := pull f.backing.fuel f.backing; ({ f with backing := b }, .many rs)
+  | .setArraysize n => ({ f with arraysize := n }, .unit)
+  | .observe k =>
+    match f.backing, k with
+    | .eager _ _, .nbytes => ({ f with nbytesTracked := true }, .unit)
+    | .eager _ _, _ => (f, .unit)
+    | .lazy _, .pure => (f, .unit)
+    | .lazy _, _ => (f, .outside)
+  | .append r =>
+    match f.backing with
+    | .eager rows p =>
+      ({ f with backing := .eager (rows ++ [r]) p,
+                live := f.live && !(Gen.Cursor.appendInvalidates f.schemaRel f.nbytesTracked) }, .unit)
+    | .lazy _ => (f, .outside)
+
+def run (f : Frame α) : List (Op α) → Frame α × List (Out α)
+  | [] => (f, [])
+  | op :: ops =>
+    let (f1, o) := step f op
+    let (f2, os) := run f1 ops
+    (f2, o :: os)
+
+/-- The row store as a list, when it is one. -/
+def store (f : Frame α) : Option (List α) :=
+  match f.backing with
+  | .eager rows _ => some rows
+  | .lazy _ => none
+
+end Impl
+
+/-- The operations of the property's lazy clause: the frame is read only through the cursor
+(schema-level observers do not read rows). -/
+def LazyOk : Op α → Bool
+  | .fetchone | .fetchmany _ | .fetchall | .setArraysize _ | .observe .pure => true
+  | _ => false
+
+/-- The rows of a frame backed by `tables` with `max_size`. -/
+def chunkRows (tables : List (List α)) (maxSize : Option Nat) : List α :=
+  match maxSize with
+  | none => tables.flatten
+  | some m => tables.flatten.take m
 
 end Cursor
